@@ -35,7 +35,7 @@ def _pool():
 
 POOL = _pool()
 assert len(POOL) >= K * MAXCELLS, len(POOL)
-REV = {" ": 0, "-": 1, "─": 1, "|": 2, "│": 2, "+": 3, "=": 4}
+REV = {" ": 0, "\n": 0, "-": 1, "─": 1, "|": 2, "│": 2, "+": 3, "=": 4}
 for _g in "┌┐└┘┼├┤┬┴":
     REV[_g] = 3
 for _i, _ch in enumerate(POOL[: K * MAXCELLS]):
@@ -75,51 +75,85 @@ def make_style(name, calls):
     return st
 
 
+LF = 5  # driver-side code of a line feed inside a cell; the specification sees it as a blank
+
+
+def cell_text(codes):
+    return "".join("\n" if c == LF else to_text([c]) for c in codes)
+
+
+def blanks(codes):
+    return [0 if c == LF else c for c in codes]
+
+
+def caller_state(passed):
+    """projection of the row / header objects the caller handed over"""
+    return [[to_codes(c) for c in r] for r in passed]
+
+
+def read_lines(io):
+    raw = io.fetch_output()
+    io.clear_output()
+    lines = raw.split("\n")
+    if lines and lines[-1] == "":
+        lines.pop()
+    return [to_codes(_SGR.sub("", ln)) for ln in lines]
+
+
 def render_case(case):
-    """builds the table described by case, renders it once, returns the event for TableLayoutTrace"""
+    """builds the table described by case, renders it once, returns the event for TableLayoutTrace.
+    Routes are varied by case["route"] (bits): rows as tuples, Table() with the default style, indentation by keyword,
+    add_row one by one instead of add_rows"""
     from clikit.formatter import AnsiFormatter
     from clikit.io import BufferedIO
     from clikit.ui.components import Table
     from clikit.ui.rectangle import Rectangle
 
     n = case["n"]
+    route = case.get("route", 0)
     tagged = set(case.get("tagged") or [])
     texts = []
     for r, row in enumerate(case["rows"]):
         trow = []
         for k, codes in enumerate(row):
-            s = to_text(codes)
+            s = cell_text(codes)
             if r * n + k + 1 in tagged:
                 s = tag_first_word(s)
             trow.append(s)
-        texts.append(trow)
-    io = BufferedIO(formatter=AnsiFormatter(forced=True) if case.get("ansi") else None)
-    io.set_terminal_dimensions(Rectangle(case["T"], 50))
-    table = Table(make_style(case["style"], calls_of(case)))
-    if case["hdr"]:
-        table.set_header_row(texts[0])
-        table.add_rows(texts[1:])
-    else:
-        table.add_rows(texts)
-
-    def state():
-        return table_state(table)
-
-    before = state()
-    try:
-        table.render(io, case["ind"])
-        raw = io.fetch_output()
-        lines = raw.split("\n")
-        if lines and lines[-1] == "":
-            lines.pop()
-        obs = {"kind": "ok", "cls": "", "lines": [to_codes(_SGR.sub("", ln)) for ln in lines]}
+        texts.append(tuple(trow) if route & 1 else trow)
+    obs = None
+    table = None
+    before = after = []
+    try:  # every step is an observation: building the table as well
+        io = BufferedIO(formatter=AnsiFormatter(forced=True) if case.get("ansi") else None)
+        io.set_terminal_dimensions(Rectangle(case["T"], 50))
+        calls = calls_of(case)
+        table = Table() if (route & 2 and case["style"] == "ascii" and not calls) else Table(make_style(case["style"], calls))
+        body = texts[1:] if case["hdr"] else texts
+        if case["hdr"]:
+            table.set_header_row(texts[0])
+        if route & 4:
+            for row in body:
+                table.add_row(row)
+        else:
+            table.add_rows(body)
+        before = table_state(table)
+        cb = caller_state(texts)
+        if route & 8:
+            table.render(io, indentation=case["ind"])
+        else:
+            table.render(io, case["ind"])
+        obs = {"kind": "ok", "cls": "", "lines": read_lines(io)}
     except Exception as e:  # noqa: every exception kind is an observation
         obs = {"kind": "exc", "cls": type(e).__name__, "lines": []}
-    after = state()
+        cb = caller_state(texts)
+        if not before and table is not None:
+            before = table_state(table)
+    after = table_state(table) if table is not None else []
     return {
         "n": n,
         "hdr": bool(case["hdr"]),
-        "rows": case["rows"],
+        "rows": [[blanks(c) for c in row] for row in case["rows"]],
         "style": case["style"],
         "T": case["T"],
         "ind": case["ind"],
@@ -127,6 +161,8 @@ def render_case(case):
         "tagged": sorted(tagged),
         "before": before,
         "after": after,
+        "cb": cb,
+        "ca": caller_state(texts),
         "obs": obs,
         "runA": bool(case.get("runA", False)),
         "op": "render",
@@ -134,55 +170,91 @@ def render_case(case):
         "row": [],
         "rws": [],
         "idx": 0,
+        "a": 0,
     }
 
 
 # ------------------------------------------------------------------------------------------- one Table object, many calls
 def table_state(table):
-    rows = ([list(table._header_row)] if table._header_row else []) + [list(r) for r in table._rows]
-    return [[to_codes(c) for c in r] for r in rows]
+    hdr = getattr(table, "_header_row", None) or []
+    rows = ([list(hdr)] if hdr else []) + [list(r) for r in (getattr(table, "_rows", None) or [])]
+    return [[to_codes(c) if isinstance(c, str) else [9] for c in r] for r in rows]
 
 
 def run_object(case):
-    """case: {"kind": "object", "style", "ind", "ansi", "ops": [{op,row,rws,idx,w}]}: performs the calls on ONE real
-    Table and returns one event per call (the rows/header the table should have are the trace module's business)"""
+    """case: {"kind": "object", "style", "ind", "ansi", "ops": [{op,row,rws,idx,a,w}]}: performs the calls on ONE real
+    Table (with ONE style object, ONE plain and ONE ANSI I/O re-used by all renders) and returns one event per call
+    (the rows/header the table should have are the trace module's business).  Successive renders alternate between a
+    narrow and a wide terminal, indentations and formatters (case["vary"]); rows are handed over as lists or tuples;
+    optionally a second table shares the style object and is rendered before every render (case["decoy"])."""
     from clikit.formatter import AnsiFormatter
     from clikit.io import BufferedIO
     from clikit.ui.components import Table
     from clikit.ui.rectangle import Rectangle
     from clikit.ui.style import TableStyle
 
-    table = Table(getattr(TableStyle, case["style"])())
+    vary = case.get("vary", 0)
+    style = getattr(TableStyle, case["style"])()
+    table = Table(style)
+    ios = {}
+    passed = []  # the caller's own row / header objects
     evs = []
+    nrender = 0
+
+    def mine(codes_row):
+        row = [to_text(c) for c in codes_row]
+        row = tuple(row) if (vary + len(passed)) % 3 == 0 else row
+        passed.append(row)
+        return row
+
     for op in case["ops"]:
         ev = {"n": 0, "hdr": False, "rows": [], "style": case["style"], "T": 0, "ind": case["ind"], "calls": [], "tagged": [],
               "runA": False, "op": op["op"], "fromObj": True, "row": op.get("row", []), "rws": op.get("rws", []),
-              "idx": op.get("idx", 0)}
+              "idx": op.get("idx", 0), "a": op.get("a", 0)}
         ev["before"] = table_state(table)
+        ev["cb"] = caller_state(passed)
         lines = []
         try:
             if op["op"] == "set_header":
-                table.set_header_row([to_text(c) for c in op["row"]])
+                table.set_header_row(mine(op["row"]))
             elif op["op"] == "add_row":
-                table.add_row([to_text(c) for c in op["row"]])
+                table.add_row(mine(op["row"]))
+            elif op["op"] == "add_rows":
+                table.add_rows([mine(r) for r in op["rws"]])
             elif op["op"] == "set_row":
-                table.set_row(op["idx"], [to_text(c) for c in op["row"]])
+                table.set_row(op["idx"], mine(op["row"]))
             elif op["op"] == "set_rows":
-                table.set_rows([[to_text(c) for c in r] for r in op["rws"]])
+                table.set_rows([mine(r) for r in op["rws"]])
+            elif op["op"] == "align":
+                style.set_column_alignment(op["idx"], op["a"])
             else:
                 n = table._nb_columns or 1
-                ev["T"] = 80 if op.get("w") == "wide" else case["ind"] + geometry(case["style"], n) + n + case.get("slack", 6)
+                k = nrender + vary
+                nrender += 1
+                alternate = case.get("alternate", True) or not op.get("w")
+                wide = (k % 2 == 1) if alternate else op["w"] == "wide"
+                ev["ind"] = [case["ind"], 0, 4][k % 3] if alternate else case["ind"]
+                ansi = bool(case.get("ansi")) ^ (alternate and (k // 2) % 2 == 1)
+                ev["T"] = 80 if wide else ev["ind"] + geometry(case["style"], n) + n + case.get("slack", 6)
                 ev["runA"] = True
-                io = BufferedIO(formatter=AnsiFormatter(forced=True) if case.get("ansi") else None)
+                if case.get("decoy"):  # another table built on the same style object
+                    d = Table(style)
+                    d.add_row(["x"] * (n + 1))
+                    dio = BufferedIO()
+                    dio.set_terminal_dimensions(Rectangle(120, 50))
+                    d.render(dio)
+                if ansi not in ios:
+                    ios[ansi] = BufferedIO(formatter=AnsiFormatter(forced=True) if ansi else None)
+                io = ios[ansi]
                 io.set_terminal_dimensions(Rectangle(ev["T"], 50))
-                table.render(io, case["ind"])
-                lines = io.fetch_output().split("\n")
-                if lines and lines[-1] == "":
-                    lines.pop()
-            ev["obs"] = {"kind": "ok", "cls": "", "lines": [to_codes(_SGR.sub("", ln)) for ln in lines]}
+                io.clear_output()
+                table.render(io, ev["ind"])
+                lines = read_lines(io)
+            ev["obs"] = {"kind": "ok", "cls": "", "lines": lines}
         except Exception as e:  # noqa: every exception kind is an observation
             ev["obs"] = {"kind": "exc", "cls": type(e).__name__, "lines": []}
         ev["after"] = table_state(table)
+        ev["ca"] = caller_state(passed)
         evs.append(ev)
     return evs
 
@@ -191,29 +263,34 @@ def random_object_case(rng):
     n = rng.randint(1, 3)
     style = rng.choice(["ascii", "solid", "borderless", "compact"])
     items = []
-    for it in range(6):  # palette of rows; a few of the wrong length
-        m = n if rng.random() < 0.85 else rng.choice([x for x in (1, 2, 3, 4) if x != n])
+    for it in range(6):  # palette of rows; a few of the wrong length, now and then an empty one
+        m = n if rng.random() < 0.85 else rng.choice([x for x in (0, 1, 2, 3, 4) if x != n])
         items.append([random_cell(rng, it * 4 + k + 1, rng.choice(["short", "short", "medium", "word", "empty"])) for k in range(m)])
     ops = []
     for _ in range(rng.randint(3, 12)):
         r = rng.random()
         if r < 0.3:
-            ops.append({"op": "render", "w": rng.choice(["narrow", "narrow", "wide"])})
-        elif r < 0.5:
+            ops.append({"op": "render"})
+        elif r < 0.45:
             ops.append({"op": "set_header", "row": rng.choice(items)})
-        elif r < 0.75:
+        elif r < 0.65:
             ops.append({"op": "add_row", "row": rng.choice(items)})
-        elif r < 0.9:
+        elif r < 0.72:
+            ops.append({"op": "add_rows", "rws": [rng.choice(items) for _ in range(rng.randint(0, 3))]})
+        elif r < 0.82:
             ops.append({"op": "set_row", "idx": rng.choice([0, 0, 1, 2, -1, 7]), "row": rng.choice(items)})
+        elif r < 0.92:
+            ops.append({"op": "align", "idx": rng.randrange(n), "a": rng.choice([0, 1, 2])})
         else:
             ops.append({"op": "set_rows", "rws": [rng.choice(items) for _ in range(rng.randint(0, 3))]})
-    ops.append({"op": "render", "w": "narrow"})
-    return {"kind": "object", "style": style, "ind": rng.choice([0, 0, 2, 5]), "ansi": rng.random() < 0.5, "slack": rng.randint(0, 12), "ops": ops}
+    ops.append({"op": "render"})
+    return {"kind": "object", "style": style, "ind": rng.choice([0, 0, 2, 5]), "ansi": rng.random() < 0.5, "slack": rng.randint(0, 12),
+            "vary": rng.randrange(6), "decoy": rng.random() < 0.4, "ops": ops}
 
 
 def case_of(rec, ansi=False, tagged=(), runA=True):
     return {"n": rec["n"], "hdr": rec["hdr"], "rows": rec["rows"], "style": rec["style"], "T": rec["T"], "ind": rec["ind"],
-            "calls": rec["calls"], "ansi": ansi, "tagged": list(tagged), "runA": runA}
+            "calls": rec["calls"], "ansi": ansi, "tagged": list(tagged), "runA": runA, "route": 0}
 
 
 def geometry(style, n):
@@ -285,14 +362,24 @@ def random_case(rng, big):
             r1, k1, r2, k2 = rng.randrange(len(rows)), rng.randrange(n), rng.randrange(len(rows)), rng.randrange(n)
             if any(rows[r1][k1]):
                 rows[r2][k2] = list(rows[r1][k1])
-    if not dup and rng.random() < 0.12:
+    lf = False
+    if rng.random() < 0.15:  # edge values: cells of blanks only, line feeds inside / at the end of a cell
+        for _ in range(rng.randint(1, 3)):
+            r1, k1 = rng.randrange(len(rows)), rng.randrange(n)
+            kind = rng.random()
+            if kind < 0.3:
+                rows[r1][k1] = [0] * rng.randint(1, 4)
+            elif rows[r1][k1]:
+                lf = True
+                rows[r1][k1] = [LF if (c == 0 and rng.random() < 0.5) else c for c in rows[r1][k1]] + ([LF] if kind > 0.8 else [])
+    if rng.random() < 0.12:
         cand = [r * n + k + 1 for r in range(len(rows)) for k in range(n) if any(rows[r][k])]
         if cand:
             tagged = sorted(set(rng.choice(cand) for _ in range(rng.randint(1, 3))))
     total = sum(len(c) for row in rows for c in row)
     pre = T_ - ind - geometry(style, n) >= n
     return {"n": n, "hdr": hdr, "rows": rows, "style": style, "T": T_, "ind": ind, "calls": calls, "ansi": rng.random() < 0.5,
-            "tagged": tagged, "runA": pre and not tagged and total <= 2500}
+            "tagged": tagged, "runA": pre and not tagged and not lf and total <= 2500, "route": rng.randrange(16)}
 
 
 def wrapped(ev):
@@ -349,6 +436,7 @@ def run(ctx):
         # variants are chosen by the content of the behaviour (TLC's workers print in no fixed order)
         h = zlib.crc32(json.dumps([rec["rows"], rec["style"], rec["T"], rec["ind"], rec["calls"]]).encode())
         case = case_of(rec, ansi=(h % 2 == 0))
+        case["route"] = (h // 4096) % 16  # tuples / default style / add_row one by one / indentation by keyword
         if fam == "draw" and (h // 2) % (64 if quick else 256) == 0 and any(rec["rows"][0][0]):
             case["tagged"] = [1]
             case["runA"] = False
@@ -421,7 +509,8 @@ def run(ctx):
     for b in seqs:
         h = zlib.crc32(json.dumps(b).encode())
         ocase = {"kind": "object", "style": styles[h % 4], "ind": [0, 3][(h // 4) % 2], "ansi": (h // 8) % 2 == 0, "slack": 6,
-                 "ops": [{"op": o["op"], "row": o["row"], "rws": o["rws"], "idx": o["idx"], "w": o["w"]} for o in b]}
+                 "vary": (h // 16) % 6, "decoy": (h // 128) % 3 == 0, "alternate": quick or (h // 512) % 2 == 0,
+                 "ops": [{"op": o["op"], "row": o["row"], "rws": o["rws"], "idx": o["idx"], "a": 1, "w": o["w"]} for o in b]}
         traces.append(run_object(ocase))
         cases.append(ocase)
         nobj += 1
